@@ -152,7 +152,7 @@ class Evaluator:
         return ("ifexp", self.expr(e.test, env), self.expr(e.body, env), self.expr(e.orelse, env))
 
     def e_BoolOp(self, e, env):
-        return ("boolop", "and" if isinstance(e.op, ast.And) else "or", tuple(self.expr(v, env) for v in e.values))
+        return T.merge_class_tests(("boolop", "and" if isinstance(e.op, ast.And) else "or", tuple(self.expr(v, env) for v in e.values)))
 
     def e_UnaryOp(self, e, env):
         if isinstance(e.op, ast.Not):
@@ -294,8 +294,20 @@ def _split_guards(ev: Evaluator, test: ast.expr, env: dict) -> tuple[list, list]
             for v in test.values:
                 tt += _split_guards(ev, v, env)[0]
             return tt, [(whole, False)]
+        if whole[0] != "boolop":
+            return [(whole, True)], [(whole, False)]  # isinstance(x, A) or isinstance(x, B) == isinstance(x, (A, B))
         ff = []
+        group = None  # adjacent class tests on one subject are one fact
         for v in test.values:
+            tm = ev.expr(v, env)
+            if T._class_test(tm):
+                if group is not None and group[1] == tm[1] and group[2][0] == tm[2][0]:
+                    group = T.merge_class_tests(("boolop", "or", (group, tm)))
+                    ff[-1] = (group, False)
+                    continue
+                group = tm
+            else:
+                group = None
             ff += _split_guards(ev, v, env)[1]
         return [(whole, True)], ff
     tm = ev.expr(test, env)
